@@ -33,3 +33,6 @@ package halts
 //@ func (*HaltBlocks).Delete
 //@   trusted
 //@   modifies haltsAbs, mapof(hb.list)
+
+//@ # ---------------------------------------------------------------- lock discipline (C25)
+//@ guarded HaltBlocks.list, HaltBlocks.dirty by lock
